@@ -37,6 +37,15 @@ def main():
         rows.append((sid, prop, "DETECTED (exit %d, %.0fs)" % (c.returncode, time.time() - t0) if c.returncode == 1 else "exit %d" % c.returncode, "; ".join(keys[:4])))
         print(rows[-1], flush=True)
     for d in (PRISTINE, SCR, BLD, EV): sh("rm", "-rf", d)
+    if args:   # partial run: keep the other rows of the existing table
+        have = {}
+        try:
+            for l in open(os.path.join(ROOT, "seeded", "RESULTS.md")):
+                c = [x.strip() for x in l.strip().strip("|").split(" | ")]
+                if len(c) >= 4 and c[0][:1] == "C" and "-" in c[0]: have[c[0]] = (c[0], c[1], c[2], " | ".join(c[3:]))
+        except OSError: pass
+        for r in rows: have[r[0]] = r
+        rows = [have[k] for k in sorted(have)]
     with open(os.path.join(ROOT, "seeded", "RESULTS.md"), "w") as f:
         f.write("# Seeded changes against the checks\n\nWritten by tools/run_seeded_all.py (quick tier, %s scenarios per check; /repo at %s).\n\n| change | breaks | outcome of the property's check | first violation keys |\n|---|---|---|---|\n" % (seeds, sh("git", "-C", "/repo", "rev-parse", "--short", "HEAD").stdout.strip()))
         for r in rows: f.write("| %s | %s | %s | %s |\n" % r)
